@@ -402,7 +402,21 @@ def jWrite : U.Write → Json
   | .unlink p => Json.arr #[Json.str "u", jStr p]
 
 /-- update: {world, top, path, create, xdev, hashes, profile, last_mtime, save:{force, sort, watermark, format}, post:[[path, meta]]} -/
-def opUpdate (req : Json) : Except String Json := do
+structure UReq where
+  w : L1.World
+  post : Str → Option L1.FileMeta
+  top : Str
+  path : Str
+  create : Bool
+  xdev : Bool
+  prof : Prof.Profile
+  o : U.Opts
+  setTs : Option (Ts × Bool)
+  so : U.SaveOpts
+  doSave : Bool
+  sign : Cli.SignCfg
+
+def getUReq (req : Json) : Except String UReq := do
   let root ← getNode (← req.getObjVal? "world")
   let w : L1.World := ⟨root⟩
   let top ← getStr (← req.getObjVal? "top")
@@ -436,14 +450,42 @@ def opUpdate (req : Json) : Except String Json := do
       let opt ← (match j.getObjVal? "opt" with | .ok Json.null => pure none | .ok b => (b.getBool?).map some | .error _ => pure none)
       pure { opt := opt, topSigned := ← (← j.getObjVal? "top_signed").getBool?, keyUsable := ← (← j.getObjVal? "key_usable").getBool? }
     | .error _ => pure {})
-  let r := Cli.updateCommand w post top path create prof xdev { hashes := hashes, profile := prof, lastMtime := lm } setTs so doSave sign
-  pure (Json.mkObj [("exit", jExit (Cli.mainExit r fun _ => 0)), ("model", match r with
+  pure { w := w, post := post, top := top, path := path, create := create, xdev := xdev, prof := prof,
+         o := { hashes := hashes, profile := prof, lastMtime := lm }, setTs := setTs, so := so, doSave := doSave, sign := sign }
+
+def jUpdateResult (r : Except L1.Err (U.St × List U.Write)) : Json :=
+  Json.mkObj [("exit", jExit (Cli.mainExit r fun _ => 0)), ("model", match r with
     | .error e => jErr e
     | .ok (s, ws) => Json.mkObj [
         ("writes", Json.arr (ws.toArray.map jWrite)),
         ("top", jStr s.top),
         ("updated", Json.arr (s.updated.toArray.map jStr)),
-        ("loaded", Json.arr (s.loaded.toArray.map fun (k, _) => Json.arr #[jStr k, Json.arr ((s.entriesOf k).toArray.map fun ie => jEntry ie.2)]))])])
+        ("loaded", Json.arr (s.loaded.toArray.map fun (k, _) => Json.arr #[jStr k, Json.arr ((s.entriesOf k).toArray.map fun ie => jEntry ie.2)]))])]
+
+def opUpdate (req : Json) : Except String Json := do
+  let u ← getUReq req
+  pure (jUpdateResult (Cli.updateCommand u.w u.post u.top u.path u.create u.prof u.xdev u.o u.setTs u.so u.doSave u.sign))
+
+/-- session: {rounds: [update request ...]}: ONE loader object through several rounds of
+    `update_entries_for_directory(path)` + `save_manifests(...)`; every round brings the world as it is on disk
+    when the round starts (the edits made meanwhile included). The first round opens the loader. -/
+def opSession (req : Json) : Except String Json := do
+  let rounds ← (← (← req.getObjVal? "rounds").getArr?).toList.mapM getUReq
+  let rec go (st : Option U.St) (rs : List UReq) (acc : Array Json) : Array Json :=
+    match rs with
+    | [] => acc
+    | u :: rest =>
+      let r : Except L1.Err (U.St × List U.Write) :=
+        match st with
+        | none => Cli.updateCommand u.w u.post u.top u.path u.create u.prof u.xdev u.o u.setTs u.so u.doSave u.sign
+        | some s =>
+          match U.updateDir u.w s u.path u.o with
+          | .error e => .error e
+          | .ok s1 => if u.doSave then U.saveAll u.w u.post (Cli.applyTimestamp s1 u.setTs) u.so else .ok (Cli.applyTimestamp s1 u.setTs, [])
+      match r with
+      | .error _ => acc.push (jUpdateResult r)          -- the session ends with the first error
+      | .ok (s', _) => go (some s') rest (acc.push (jUpdateResult r))
+  pure (Json.mkObj [("rounds", Json.arr (go none rounds #[]))])
 
 -- call-level model (C06) -------------------------------------------------------------------
 def getOutcome {α : Type} (j : Json) (f : Json → Except String α) : Except String (Except Nat α) :=
@@ -554,6 +596,7 @@ def dispatch (req : Json) : Except String Json := do
   | "find_top" => opFindTop req
   | "profile_fn" => opProfileFn req
   | "update" => opUpdate req
+  | "session" => opSession req
   | "verify_calls" => opVerifyCalls req
   | "fastgen" => opFastgen req
   | "fg_order" => opFgOrder req
